@@ -745,6 +745,10 @@ def run(ctx):
     r5c_constructor_entries_are_copied(ctx, sym)
     r6_issue_locations(ctx, sym)
     locate_positionless_rule(ctx, sym, 'R6')
+    # R6s: the offset locate() adds inside a section is the number of lines CPython counts before it (an offset that is
+    # too large puts the issue's line outside the analysed source); shared with C17.R3
+    from .c12 import section_offsets
+    section_offsets(ctx, sym, as_rule='R6s')
     r1_never_raises(ctx, sym)
     r1c_constants_complete(ctx, sym)
     from .c19 import binop_cells_callable
